@@ -7,10 +7,20 @@ use implode::symbol::DEFAULT_CODE_TABLE;
 use pklib::{CompressionMode, DictionarySize, implode_bytes};
 
 /// Compress data using PKWare DCL algorithm
+/// Largest input the pklib encoder handles correctly
+const PKLIB_MAX_INPUT: usize = 4096;
+
 pub(crate) fn compress(data: &[u8]) -> Result<Vec<u8>> {
     // Handle empty data
     if data.is_empty() {
         return Ok(Vec::new());
+    }
+
+    // The pklib encoder works on a single 4096-byte buffer: for larger inputs it emits a
+    // stream that decodes to different data. Report "no gain" for those so that the
+    // caller stores the data uncompressed instead of corrupting it.
+    if data.len() > PKLIB_MAX_INPUT {
+        return Ok(data.to_vec());
     }
 
     // Use binary (uncoded-literal) mode with a 2KB dictionary. The exploder used by
